@@ -1659,8 +1659,9 @@ class BSP:
                         )
 
                 else:
-                    # Normal lump, pakfiles can't be compressed.
-                    if lump.is_compressed and lump_name is not BSP_LUMPS.PAKFILE:
+                    # Normal lump, pakfiles can't be compressed. An empty lump can't be either,
+                    # since a zero uncompressed size is what marks a lump as not compressed.
+                    if lump.is_compressed and lump.data and lump_name is not BSP_LUMPS.PAKFILE:
                         lump_fourcc = len(lump.data)
                         print('Compress: ', lump.type)
                         lump_data = compress_lzma(lump.data)
